@@ -110,8 +110,8 @@ def vt(test, quick, thorough, shards=16, **kw):
 
 
 prop("C14", "Channel monitor: restarts serialized and bounded; one verdict per channel", "exploration", "mon",
-     "property testing (rapid) on virtual time (testing/synctest): generated configs x timed event scripts x failure scripts against invariants over the time-stamped call log of a monitor-API double",
-     [vt("TestC14_Mon", 60000, 9600000), vt("TestC14_MonNoFailures", 30000, 4800000)],
+     "property testing (rapid) on virtual time (testing/synctest): generated configs x timed event scripts x failure scripts against invariants over the time-stamped call log of a monitor-API double; plus the real manager with its real monitor over recording doubles (real time, millisecond settings) against a reference attempt counter",
+     [vt("TestC14_Mon", 60000, 9600000), vt("TestC14_MonNoFailures", 30000, 4800000), hx("TestC14_MgrMonitor", 1200, 48000)],
      ["ties between a delivered event and an internal timer are excluded by construction (event instants are multiples of 10 ms, durations carry a 1..3 us residue; a zero debounce is generated as 1..3 us); ties between two internal instants are tolerated in either order",
       "only time is virtual: goroutine scheduling inside the bubble is still Go's"],
      "generated timed scripts with exact virtual-time instants; sampled, not exhaustive",
@@ -174,7 +174,7 @@ prop("C09", "Cleanup exactly once per ending; closing never hangs", "exploration
 
 prop("C11", "Pause state per party", "exploration", "fsmx",
      "model-based stateful property testing (rapid) against a two-flag reference model updated by applied events only; ignored actions must leave accessors and bytes identical",
-     [hx("TestC11_Fsmx", 7500, 192000), hx("TestC11_Mgrx", 4500, 128000), hx("TestC11_GsxMatrix", 1500, 16000)],
+     [hx("TestC11_Fsmx", 7500, 192000), hx("TestC11_Mgrx", 4500, 128000), hx("TestC11_GsxMatrix", 1500, 16000), hx("TestC04_MgrxRestart", 3000, 64000)],
      [],
      "generated interleavings of the four pause/resume actions and limit pauses in every reachable status, both roles; sampled",
      TRUST)
